@@ -16,6 +16,10 @@ for chunk, delay in spec['chunks']:
     os.write(2, bytes(chunk))
     if delay:
         time.sleep(delay)
+if spec.get('linger'):
+    # a program that closes its stderr (daemonises, redirects it) and only exits later
+    os.close(2)
+    time.sleep(spec['linger'])
 os._exit(spec['exit'])
 '''
 
